@@ -394,7 +394,7 @@ func C13(c *wk.Ctx) {
 	}
 	units, perUnit := 400, perUnitC13
 	if c.Tier == "thorough" {
-		units = 8000
+		units = 40000
 	}
 	native := c.Extra == "native"
 	if c.Mode == "oracle" {
@@ -560,7 +560,16 @@ func c13Gen(c *wk.Ctx, run, ci int) (*gen.Case, int) {
 	if ci%4 == 3 {
 		o.DropRequired = 0.5 // compile errors that list the missing params and print the offending call
 	}
-	return gen.Generate(c.UnitSeed(run, uint64(500+ci)), o), r.Intn(3)
+	gc := gen.Generate(c.UnitSeed(run, uint64(500+ci)), o)
+	if ci%4 == 2 && r.Intn(2) == 0 {
+		// several undefined globals in one template (and in two): which one the compiler names must not vary
+		f := gc.Files[r.Intn(len(gc.Files))]
+		for k, n := 0, 2+r.Intn(3); k < n; k++ {
+			t := f.Templates[r.Intn(len(f.Templates))]
+			t.Body = append(t.Body, &gen.Node{K: "print", E: fmt.Sprintf("UNDEFINED_%c + app.UNDEF.G%d", 'A'+byte(r.Intn(5)), r.Intn(4))})
+		}
+	}
+	return gc, r.Intn(3)
 }
 
 // c13Order observes the unit's cases under the canonical order, first to last or last to first.
